@@ -13,7 +13,7 @@ import (
 
 func init() {
 	register("C15", propMeta{
-		Explanation: "Decides, on every path: in msgServer.CreateClient/UpgradeClient/RegisterRelayer/SetRoutingRules every state write and event is dominated by the equal edge of 'keeper authority == msg.Authority'; in msgServer.UpdateClient the client update is dominated by AuthRelayer(ctx, msg.ChainName, msg.Signer) == true for the same chain name, and AuthRelayer returns true only on string equality with an entry of that chain's registered relayers; the cosmos.msg.v1.signer option of each of the five messages names the field the handler compares (so the compared account is the one whose signature the SDK verified); ClientKeeper.CreateClient is invoked only where a lookup of the same chain name found no client (message handler and proposal handler); ClientKeeper.UpgradeClient overwrites the client state only past 'existing client found' and 'old.ClientType() == new.ClientType()'; the privileged keeper operations are called only from the guarded handlers, the governance proposal handlers and genesis. NOT decided: that a refused request changes nothing (SDK rollback, trusted).",
+		Explanation: "Decides, on every path: in msgServer.CreateClient/UpgradeClient/RegisterRelayer/SetRoutingRules every state write and event is dominated by the equal edge of 'keeper authority == msg.Authority'; in msgServer.UpdateClient the client update is dominated by AuthRelayer(ctx, msg.ChainName, msg.Signer) == true for the same chain name, and AuthRelayer returns true only on string equality with an entry of that chain's registered relayers; the cosmos.msg.v1.signer option of each of the five messages names the field the handler compares (so the compared account is the one whose signature the SDK verified); ClientKeeper.CreateClient is invoked only where a lookup of the same chain name found no client (message handler and proposal handler); ClientKeeper.UpgradeClient overwrites the client state only past 'existing client found' and 'old.ClientType() == new.ClientType()'; the privileged keeper operations are called only from the guarded handlers, the governance proposal handlers and genesis. An accepted SetRoutingRules always writes the new table. NOT decided: that a refused request changes nothing (SDK rollback, trusted).",
 		Assumptions: []string{"the SDK verifies the signature of the account named by the cosmos.msg.v1.signer option", "cosmos-sdk store branching discards writes of failed messages"},
 		Trusted:     commonTrusted,
 	}, ruleC15)
